@@ -26,24 +26,31 @@ class Pool:
     terminals: list of (name, shape); values[e][name][comp] -> Cx
     """
 
-    def __init__(self, terminals, nenv=2, seed=0, complex_env=False, small=False):
+    def __init__(self, terminals, nenv=2, seed=0, complex_env=False, small=False, square_gram=(), tiny=False):
+        """square_gram: names of m x n terminals (n < m) whose Gram determinant det(A^T A) must be a
+        perfect square in every environment (so that the pseudo-determinant is rational)."""
         self.terminals = list(terminals)
         self.nenv = nenv
         rng = random.Random(seed * 7919 + 17)
         self.values = []
         for e in range(nenv):
             nums = PRIMES[:12] if small else PRIMES[:]
+            if tiny:
+                # distinct small integers (both signs come from the sign draw below)
+                nums = list(range(1, 10))
             rng.shuffle(nums)
-            it = iter(nums * 8)
+            it = itertools.cycle(nums)
             env = {}
             used = set()
             for name, shape in self.terminals:
                 tab = {}
+                if tiny:
+                    used = set()  # distinct within one terminal only (18 values available)
                 for c in comps(shape):
                     while True:
                         p = next(it)
                         s = rng.choice([1, 1, -1])
-                        d = rng.choice([1, 1, 1, 2]) if not small else 1
+                        d = rng.choice([1, 1, 1, 2]) if not (small or tiny) else 1
                         v = Fraction(s * p, d)
                         if v not in used:
                             used.add(v)
@@ -54,6 +61,9 @@ class Pool:
                     else:
                         tab[c] = Cx(v)
                 env[name] = tab
+            for name, shape in self.terminals:
+                if name in square_gram:
+                    env[name] = _square_gram_matrix(shape, rng)
             self.values.append(env)
 
     # ---- TLA+ rendering -----------------------------------------------------------------------
@@ -75,6 +85,33 @@ class Pool:
             "terminals": [[n, list(s)] for n, s in self.terminals],
             "values": [{n: [[list(c), v.to_json()] for c, v in tab.items()] for n, tab in env.items()} for env in self.values],
         }
+
+
+def _square_gram_matrix(shape, rng):
+    """Generic small integer m x n matrix (n < m) with det(A^T A) a positive perfect square and a
+    non-diagonal Gram matrix (so index mistakes in A^T A are visible)."""
+    import math
+
+    m, n = shape
+    for _ in range(200000):
+        ent = [rng.randint(-6, 6) for _ in range(m * n)]
+        if len(set(ent)) < len(ent) - 1 or 0 in ent:
+            continue
+        A = [ent[i * n : (i + 1) * n] for i in range(m)]
+        G = [[sum(A[k][i] * A[k][j] for k in range(m)) for j in range(n)] for i in range(n)]
+        if n > 1 and all(G[i][j] == 0 for i in range(n) for j in range(n) if i != j):
+            continue
+        d = _idet(G)
+        if d > 0 and math.isqrt(d) ** 2 == d and math.isqrt(d) <= 150:
+            return {(i, j): Cx(A[i][j]) for i in range(m) for j in range(n)}
+    raise RuntimeError("no square-Gram matrix found")
+
+
+def _idet(M):
+    n = len(M)
+    if n == 1:
+        return M[0][0]
+    return sum((-1) ** j * M[0][j] * _idet([r[:j] + r[j + 1 :] for r in M[1:]]) for j in range(n))
 
 
 def _seq(t):
